@@ -184,9 +184,17 @@ func TestResourceShutdown(t *testing.T) {
 						helpers.Add(1)
 						go func(s *rsub) { defer helpers.Done(); open(s) }(subs[a.sub])
 					} else {
-						inHook = true
-						open(subs[a.sub])
-						inHook = false
+						// inline: the subscription is complete before the writer takes its next step. Run with a
+						// watchdog: were the point inside a critical section (the write holding the resource's lock
+						// here), the subscribe could only finish after the writer has moved on - then let it
+						helpers.Add(1)
+						opened := make(chan struct{})
+						go func(s *rsub) { defer helpers.Done(); defer close(opened); open(s) }(subs[a.sub])
+						select {
+						case <-opened:
+						case <-time.After(3 * time.Second):
+							lib.Ev.Class("a subscribe issued at " + point + " could not finish before the writer moved on")
+						}
 					}
 				}
 			}
